@@ -8,7 +8,7 @@
 (*                                                                         *)
 (* One action per scheduling point of the code (a queue put/get, an event  *)
 (* wait, a join) plus the purely local steps that sit between two of them  *)
-(* (LoaderPull, LoaderPillCheck, MainRest) so that every atomicity the     *)
+(* (LoaderPull, LoaderPillCheck) so that every atomicity the     *)
 (* code could have is covered.  Property C08:                              *)
 (*   ExactlyOnce   no output lost or duplicated when the call completes    *)
 (*   NoDupEver     never a duplicate, in any state                         *)
@@ -17,10 +17,12 @@
 (*   Terminates    the call always finishes: done / raised / abandoned     *)
 (*                                                                         *)
 (* action <-> code                                                         *)
-(*   MainStart      249-250  load_thread.start(); filt_procs.pop().start() *)
+(*   MainStart      249      load_thread.start()                           *)
+(*   MainStartFirst 250      filt_procs.pop().start()                      *)
 (*   WorkerBoot(w)  141-143  EventSetter.filter while SourceSink.run builds *)
 (*   MainWait       254      event.wait()                                  *)
-(*   MainRest       256      for p in filt_procs: p.start()                *)
+(*   MainRestOne    256      for p in filt_procs: p.start()  (one per step) *)
+(*   CbStart(w)     233      MyProcessLine(worker.pipeline,...).start()    *)
 (*   LoaderPull     152-155  Stopper.filter: `if self._stop: break`        *)
 (*   LoaderPut      sinks.py 144-148 QueueSink.write -> in_queue.put       *)
 (*   LoaderCb       215-217  loader_finished_or_failed: [poison]*_n_procs  *)
@@ -51,12 +53,12 @@ Workers == 1..MaxWorkers
 VARIABLES inq, outq, nProcs, excs, stopped, event,
           lpc, li, cbpills,                  \* loader thread and its callback thread
           wst, wcur, whandled, wpois, wexc,  \* worker processes
-          nstarted, mpc, delivered
-vars == <<cfg,inq,outq,nProcs,excs,stopped,event,lpc,li,cbpills,wst,wcur,whandled,wpois,wexc,nstarted,mpc,delivered>>
+          nstarted, mpc, delivered, mrest
+vars == <<cfg,inq,outq,nProcs,excs,stopped,event,lpc,li,cbpills,wst,wcur,whandled,wpois,wexc,nstarted,mpc,delivered,mrest>>
 shared == <<cfg,inq,outq,nProcs,excs,stopped,event>>
 loaderv == <<lpc,li,cbpills>>
 workerv == <<wst,wcur,whandled,wpois,wexc,nstarted>>
-mainv == <<mpc,delivered>>
+mainv == <<mpc,delivered,mrest>>
 
 InitRest ==
         /\ inq = <<>> /\ outq = <<>> /\ nProcs = P /\ excs = <<>> /\ stopped = FALSE /\ event = FALSE
@@ -64,31 +66,35 @@ InitRest ==
         /\ wst = [w \in Workers |-> "unused"] /\ wcur = [w \in Workers |-> 0]
         /\ whandled = [w \in Workers |-> 0]
         /\ wpois = [w \in Workers |-> FALSE] /\ wexc = [w \in Workers |-> FALSE]
-        /\ nstarted = 0 /\ mpc = (IF N = 0 THEN "done" ELSE "start") /\ delivered = <<>>
+        /\ nstarted = 0 /\ mpc = (IF N = 0 THEN "done" ELSE "start") /\ delivered = <<>> /\ mrest = 0
 Init == cfg \in Configs /\ InitRest
 
 (* start k fresh worker processes (ids in start order) *)
 Started(ws,k) == [w \in Workers |-> IF w > nstarted /\ w <= nstarted + k THEN "boot" ELSE ws[w]]
 
 (* ---------------- the consuming caller ---------------- *)
-MainStart == /\ mpc = "start" /\ lpc' = "pull" /\ nstarted + 1 <= MaxWorkers
+(* starting a process is a step of its own (spawn takes time; other threads run meanwhile) *)
+MainStart == /\ mpc = "start" /\ lpc' = "pull" /\ mpc' = "start1"
+             /\ UNCHANGED <<shared,li,cbpills,workerv,delivered,mrest>>
+MainStartFirst == /\ mpc = "start1" /\ nstarted + 1 <= MaxWorkers
              /\ wst' = Started(wst,1) /\ nstarted' = nstarted + 1 /\ mpc' = "wait"
-             /\ UNCHANGED <<shared,li,cbpills,wcur,whandled,wpois,wexc,delivered>>
-MainWait  == /\ mpc = "wait" /\ event /\ mpc' = "rest"
+             /\ UNCHANGED <<shared,loaderv,wcur,whandled,wpois,wexc,delivered,mrest>>
+MainWait  == /\ mpc = "wait" /\ event /\ mpc' = (IF P > 1 THEN "rest" ELSE "get") /\ mrest' = P - 1
              /\ UNCHANGED <<shared,loaderv,workerv,delivered>>
-MainRest  == /\ mpc = "rest" /\ nstarted + (P-1) <= MaxWorkers
-             /\ wst' = Started(wst,P-1) /\ nstarted' = nstarted + (P-1) /\ mpc' = "get"
+MainRestOne == /\ mpc = "rest" /\ nstarted + 1 <= MaxWorkers
+             /\ wst' = Started(wst,1) /\ nstarted' = nstarted + 1
+             /\ mrest' = mrest - 1 /\ mpc' = (IF mrest - 1 = 0 THEN "get" ELSE "rest")
              /\ UNCHANGED <<shared,loaderv,wcur,whandled,wpois,wexc,delivered>>
 MainGet   == /\ mpc = "get" /\ outq # <<>>
              /\ outq' = Tail(outq)
              /\ IF Head(outq) = Pill THEN mpc' = "finally" /\ UNCHANGED delivered
                 ELSE delivered' = Append(delivered, Head(outq)) /\ mpc' = "get"
-             /\ UNCHANGED <<cfg,inq,nProcs,excs,stopped,event,loaderv,workerv>>
+             /\ UNCHANGED <<cfg,inq,nProcs,excs,stopped,event,loaderv,workerv,mrest>>
 MainAbandon == /\ AllowAbandon /\ mpc = "get" /\ delivered # <<>> /\ mpc' = "finallyA"
-               /\ UNCHANGED <<shared,loaderv,workerv,delivered>>
+               /\ UNCHANGED <<shared,loaderv,workerv,delivered,mrest>>
 MainFinally == /\ mpc \in {"finally","finallyA"} /\ stopped' = TRUE /\ inq' = <<>> /\ outq' = <<>>
                /\ mpc' = (IF mpc = "finallyA" THEN "abandoned" ELSE IF excs # <<>> THEN "raised" ELSE "done")
-               /\ UNCHANGED <<cfg,nProcs,excs,event,loaderv,workerv,delivered>>
+               /\ UNCHANGED <<cfg,nProcs,excs,event,loaderv,workerv,delivered,mrest>>
 (* ---------------- loader thread: IterableSource | Stopper | Pickler | QueueSink ---------------- *)
 LoaderPull == /\ lpc = "pull"
               /\ lpc' = (IF stopped \/ li > N THEN "exit" ELSE "put")
@@ -127,19 +133,21 @@ Callback(w) == /\ wst[w] = "exited"
                /\ LET ex == IF wexc[w] THEN Append(excs, wcur[w]) ELSE excs IN
                   /\ excs' = ex
                   /\ IF ~wpois[w] /\ ex = <<>>
-                     THEN /\ nstarted < MaxWorkers
-                          /\ wst' = [Started(wst,1) EXCEPT ![w] = "reaped"] /\ nstarted' = nstarted + 1
-                          /\ UNCHANGED nProcs
-                     ELSE /\ nProcs' = nProcs - 1 /\ UNCHANGED nstarted
+                     THEN /\ wst' = [wst EXCEPT ![w] = "cbstart"] /\ UNCHANGED nProcs
+                     ELSE /\ nProcs' = nProcs - 1
                           /\ wst' = [wst EXCEPT ![w] = IF nProcs - 1 = 0 THEN "cbpoison" ELSE "reaped"]
-               /\ UNCHANGED <<cfg,inq,outq,stopped,event,loaderv,wcur,whandled,wpois,wexc,mainv>>
+               /\ UNCHANGED <<cfg,inq,outq,stopped,event,loaderv,wcur,whandled,wpois,wexc,nstarted,mainv>>
+(* the callback replaces the retired worker: MyProcessLine(worker.pipeline,...).start() *)
+CbStart(w) == /\ wst[w] = "cbstart" /\ nstarted < MaxWorkers
+              /\ wst' = [Started(wst,1) EXCEPT ![w] = "reaped"] /\ nstarted' = nstarted + 1
+              /\ UNCHANGED <<shared,loaderv,wcur,whandled,wpois,wexc,mainv>>
 CbPutPoison(w) == /\ wst[w] = "cbpoison" /\ outq' = Append(outq, Pill) /\ wst' = [wst EXCEPT ![w] = "reaped"]
                   /\ UNCHANGED <<cfg,inq,nProcs,excs,stopped,event,loaderv,wcur,whandled,wpois,wexc,nstarted,mainv>>
 
-MainStep   == MainStart \/ MainWait \/ MainRest \/ MainGet \/ MainFinally
+MainStep   == MainStart \/ MainStartFirst \/ MainWait \/ MainRestOne \/ MainGet \/ MainFinally
 LoaderStep == LoaderPull \/ LoaderPut \/ LoaderCb \/ LoaderPillCheck \/ LoaderPillPut
 WorkerStep(w) == WorkerBoot(w) \/ WorkerGet(w) \/ WorkerOut(w)
-CbStep(w)  == Callback(w) \/ CbPutPoison(w)
+CbStep(w)  == Callback(w) \/ CbStart(w) \/ CbPutPoison(w)
 Next == MainStep \/ MainAbandon \/ LoaderStep \/ \E w \in Workers : WorkerStep(w) \/ CbStep(w)
 Fair == /\ WF_vars(MainStep) /\ WF_vars(LoaderStep)
         /\ \A w \in Workers : WF_vars(WorkerStep(w)) /\ WF_vars(CbStep(w))
@@ -153,14 +161,14 @@ NoDupEver     == NoDup(delivered) /\ Range(delivered) \subseteq Good
 ExactlyOnce   == mpc = "done" => Range(delivered) = Items /\ NoDup(delivered)
 (* no output is ever in two places, and none vanishes before the caller stops listening *)
 InFlight      == Range(inq) \cup Range(outq) \cup {wcur[w] : w \in {v \in Workers : wst[v] = "have"}}
-Conserved     == (mpc \in {"wait","rest","get"} /\ excs = <<>> /\ (\A w \in Workers : ~wexc[w]))
+Conserved     == (mpc \in {"start1","wait","rest","get"} /\ excs = <<>> /\ (\A w \in Workers : ~wexc[w]))
                    => Items \subseteq (Range(delivered) \cup InFlight \cup li..N)
 MaxTasks      == Max > 0 => \A w \in Workers : whandled[w] <= Max
 OnePoison     == Cardinality({i \in DOMAIN outq : outq[i] = Pill}) <= 1
 RaiseIffFault == /\ (mpc = "done" => excs = <<>> /\ Faults \cap Range(delivered) = {})
                  /\ (mpc = "raised" => excs # <<>> /\ excs[1] \in Faults)
                  /\ (mpc = "done" => Faults = {})
-EnoughWorkers == \A w \in Workers : wst[w] = "exited" /\ ~wpois[w] /\ excs = <<>> /\ ~wexc[w] => nstarted < MaxWorkers
+EnoughWorkers == \A w \in Workers : wst[w] = "cbstart" => nstarted < MaxWorkers
 NProcsSane    == nProcs >= 0 /\ nProcs <= P
 Terminates    == <>(mpc \in {"done","raised","abandoned"})
 =============================================================================
